@@ -14,11 +14,12 @@ import (
 func init() { register("C18", checkC18) }
 
 type argCase struct {
-	Arg  string `json:"arg"`
-	OK   bool   `json:"ok"`
-	File string `json:"file"`
-	ID   string `json:"id"`
-	K    int    `json:"k"`
+	Arg     string `json:"arg"`
+	OK      bool   `json:"ok"`
+	File    string `json:"file"`
+	ID      string `json:"id"`
+	K       int    `json:"k"`
+	FTarget string `json:"ftarget"` // the file `regex format ARG' addresses (Args!FormatTarget)
 }
 
 type rootCase struct {
@@ -168,6 +169,40 @@ func checkC18(c *Ctx) error {
 			}
 		}
 	})
+	// format: the file the argument addresses (Args!FormatTarget) and nothing else is rewritten; an
+	// argument whose target does not exist fails and leaves the tree alone
+	parallel(len(args), 16, func(i int) {
+		a := args[i]
+		if strings.TrimSpace(a.Arg) == "" || a.Arg == "-" || strings.HasPrefix(a.Arg, "-") {
+			return // not an argument (cobra takes it for a flag or rejects it)
+		}
+		d, err := c.newSandbox(fmt.Sprintf("fmtarg%d", i))
+		if err != nil {
+			return
+		}
+		defer os.RemoveAll(d)
+		ft := Tree{"regex-assembly/932100.ra": " x\n", "regex-assembly/932100-chain1.ra": " x\n", "regex-assembly/932100-chain7.ra": " x\n",
+			"regex-assembly/932100-chain0.ra": " x\n", "regex-assembly/932100-chain44.ra": " x\n", "regex-assembly/include/words.ra": " x\n", "regex-assembly/include/932100.ra": " x\n"}
+		if a.OK {
+			ft["regex-assembly/"+a.File] = " x\n"
+		}
+		if err := writeTree(d, ft); err != nil {
+			return
+		}
+		before, _ := snapshot(d)
+		r := c.runCLI(d, "", "-d", d, "regex", "format", a.Arg)
+		atomic.AddInt64(&cli, 1)
+		after, _ := snapshot(d)
+		diff := diffTrees(before, after)
+		_, exists := ft[a.FTarget]
+		if exists {
+			if r.Exit != 0 || len(diff) != 1 || diff[0] != "changed:"+a.FTarget {
+				c.violation("args", map[string]any{"argument": a.Arg, "spec_target": a.FTarget, "why": fmt.Sprintf("format must rewrite exactly %s; exit=%d diff=%v", a.FTarget, r.Exit, diff)})
+			}
+		} else if r.Exit == 0 || len(diff) != 0 {
+			c.violation("args", map[string]any{"argument": a.Arg, "spec_target": a.FTarget, "why": fmt.Sprintf("the file the argument addresses (%s) does not exist: format must fail and touch nothing; exit=%d diff=%v", a.FTarget, r.Exit, diff)})
+		}
+	})
 	// the same bytes as a file and on stdin: bodies generated by the model (blank space around the lines)
 	var bodies []string
 	st3, err := c.runTLC(TLCRun{Module: "MC_Args", Seed: c.Seed, Timeout: 10 * time.Minute, Workers: 4,
@@ -275,7 +310,7 @@ func checkC18(c *Ctx) error {
 	c.Cov["traces_validated_against_impl"] = len(args) + len(roots) + len(bodies)
 	c.Cov["cli_executions"] = cli
 	c.Cov["exhaustive"] = c.Tier == "thorough"
-	c.Cov["rule"] = "argument strings assembled from 3 x 5 x 15 x 6 x 3 pieces (junk, digits of other lengths, chain offsets 0,1,7,255,256,300,65536,2^64, empty, negative, leading zeros, wrong case, extensions, junk); every string is resolved by the spec (Args!Resolve) and by the real generate (marker literal per file shows which file was read; decoy files exist for wrapped offsets 256->0 and 300->44), generate from stdin, and update on a chain of 9 links (shows the offset used); " + fmt.Sprint(len(bodies)) + " file bodies assembled from 4 x 2 x 9 x 8 pieces (blank space, tabs, CR, form feed, empty lines before, between and after the lines, with and without final newline) given once as file argument and once as the same bytes on stdin; 182 root cases (7 layouts incl. nested roots, a root below another root's regex-assembly directory and below a directory named regex-assembly-old x 13 start directories x -d or cwd); non-trivial = accepted argument or argument with a chain part"
+	c.Cov["rule"] = "argument strings assembled from 3 x 5 x 15 x 6 x 3 pieces (junk, digits of other lengths, chain offsets 0,1,7,255,256,300,65536,2^64, empty, negative, leading zeros, wrong case, extensions, junk); every string is resolved by the spec (Args!Resolve) and by the real generate (marker literal per file shows which file was read; decoy files exist for wrapped offsets 256->0 and 300->44), generate from stdin, update on a chain of 9 links (shows the offset used), and `regex format ARG` (exactly Args!FormatTarget is rewritten; a foreign extension is never bent into a rule file); " + fmt.Sprint(len(bodies)) + " file bodies assembled from 4 x 2 x 9 x 8 pieces (blank space, tabs, CR, form feed, empty lines before, between and after the lines, with and without final newline) given once as file argument and once as the same bytes on stdin; 182 root cases (7 layouts incl. nested roots, a root below another root's regex-assembly directory and below a directory named regex-assembly-old x 13 start directories x -d or cwd); non-trivial = accepted argument or argument with a chain part"
 	c.Summary = fmt.Sprintf("args=%d roots=%d cli=%d", len(args), len(roots), cli)
 	return nil
 }
